@@ -198,8 +198,8 @@ type c19State struct {
 	rebound bool
 	// cfgSlice: a two-element Config slice owned by the history (kinds 9 and 10)
 	cfgSlice []jsonpath.Config
-	funcs   []func(interface{}) ([]interface{}, error)
-	prints  []string
+	funcs    []func(interface{}) ([]interface{}, error)
+	prints   []string
 }
 
 func newC19State() *c19State {
